@@ -100,6 +100,9 @@ def build_series(cfg):
             arr = buffers.reuse(f"e2e.series.{si}", arr)       # same array object as in earlier runs of this process
         out.append(arr)
     cfg.pop("_last_reg", None)
+    if cfg.get("series_kind") and not cfg.get("reuse_buffers") and not cfg.get("series_as_views"):
+        from harness import buffers
+        out = [buffers.as_kind(a, cfg["series_kind"]) for a in out]
     if cfg.get("series_as_views") == "interleaved":
         # recordings multiplexed row by row in one buffer (series i is rows i, i+n, i+2n, ...): contiguous within a row, strided
         # between rows; a single series is interleaved with a decoy
